@@ -212,6 +212,22 @@ func c17r4(r *R) {
 		if ret, ok := i.(*ssa.Return); ok {
 			e0, e1 := c.Expr(ret.Results[0]), c.Expr(ret.Results[1])
 			o.Check((e0 == "nil") != (e1 == "nil"), "Accept returns (%s, %s)", e0, e1)
+			// the error of the Done edge is what serveHTTP1 recognises as a regular end (errors.Is(err, context.Canceled)):
+			// the context's own Err(), not its cause or a fresh error, otherwise serveHTTP1 panics on shutdown
+			if gs := c.guardStrs(i.Block()); hasGuard(gs, "+(0 == select1#0)") {
+				o.AtI(i).Check(e1 == "(context.Context).Err(p0.context)" || e1 == "context.Canceled", "on cancellation Accept returns the error %s; serveHTTP1 only treats context.Canceled (the listener context's Err()) and http.ErrServerClosed as a regular end and panics on anything else", e1)
+			} else if e1 != "nil" {
+				// the other error edge (hand-off channel closed) must be unreachable: nobody closes that channel
+				for _, fn := range c.FuncsIn(appPkgs...) {
+					eachInstr(fn, func(j ssa.Instruction) {
+						if cc := callOf(j); cc != nil {
+							if b, ok := cc.Value.(*ssa.Builtin); ok && b.Name() == "close" && strings.HasSuffix(c.Expr(cc.Args[0]), ".channel") {
+								o.AtI(j).Fail("the hand-off channel is closed in %s: Accept then returns %s, which serveHTTP1 answers with a panic", funcName(fn), e1)
+							}
+						}
+					})
+				}
+			}
 		}
 	})
 	ncl := c.Func("pkg/hack", "NewChannelListener")
